@@ -163,6 +163,159 @@ fn norm(s: &str) -> String {
     s.chars().filter(|c| !c.is_whitespace()).collect()
 }
 
+/// tokens of a source line for fuzzy anchor matching: identifiers/numbers as words, every other non-blank char by itself
+fn anchor_tokens(s: &str) -> Vec<String> {
+    let s = s.split("/*").next().unwrap_or("");
+    let mut out: Vec<String> = Vec::new();
+    let mut cur = String::new();
+    for c in s.chars() {
+        if c.is_alphanumeric() || c == '_' {
+            cur.push(c);
+        } else {
+            if !cur.is_empty() {
+                out.push(std::mem::take(&mut cur));
+            }
+            if !c.is_whitespace() {
+                out.push(c.to_string());
+            }
+        }
+    }
+    if !cur.is_empty() {
+        out.push(cur);
+    }
+    out
+}
+
+/// how much of the needle's token sequence occurs, in order, in the line (longest common subsequence / needle length)
+fn anchor_similarity(needle: &[String], line: &[String]) -> f64 {
+    if needle.is_empty() || line.is_empty() {
+        return 0.0;
+    }
+    let mut prev = vec![0usize; line.len() + 1];
+    for a in needle {
+        let mut cur = vec![0usize; line.len() + 1];
+        for (j, b) in line.iter().enumerate() {
+            cur[j + 1] = if a == b { prev[j] + 1 } else { cur[j].max(prev[j + 1]) };
+        }
+        prev = cur;
+    }
+    prev[line.len()] as f64 / needle.len() as f64
+}
+
+// ------------------------------------------------------------------------------------------
+// R32: alpha-renaming of the contract text.  `contracts/<unit>.locals.json` records, per function under contract, the names
+// bound in the function (parameters, let/match/if-let/for/closure bindings) in source order, as they were when the contract
+// was written.  If the current function binds the same number of names and only the spelling of some differs, the clause,
+// loop-clause and hint text of that function is renamed accordingly (a renamed local is not a reason to lose a contract).
+// Nothing is renamed when the binding structure differs or when a new spelling already occurs in the contract text.
+// ------------------------------------------------------------------------------------------
+static LOCALS_BASE: std::sync::OnceLock<HashMap<String, Vec<String>>> = std::sync::OnceLock::new();
+static LOCALS_NOW: std::sync::Mutex<Vec<(String, Vec<String>)>> = std::sync::Mutex::new(Vec::new());
+
+struct BindingNames(Vec<String>);
+impl<'ast> syn::visit::Visit<'ast> for BindingNames {
+    fn visit_pat_ident(&mut self, p: &'ast syn::PatIdent) {
+        self.0.push(p.ident.to_string());
+        syn::visit::visit_pat_ident(self, p);
+    }
+}
+
+fn ident_tokens(s: &str) -> Vec<String> {
+    anchor_tokens(s).into_iter().filter(|t| t.chars().next().map_or(false, |c| c.is_alphabetic() || c == '_')).collect()
+}
+
+fn rename_idents(s: &str, map: &HashMap<String, String>) -> String {
+    let mut out = String::new();
+    let mut cur = String::new();
+    let flush = |cur: &mut String, out: &mut String| {
+        if !cur.is_empty() {
+            match map.get(cur.as_str()) {
+                Some(n) => out.push_str(n),
+                None => out.push_str(cur),
+            }
+            cur.clear();
+        }
+    };
+    for c in s.chars() {
+        if c.is_alphanumeric() || c == '_' {
+            cur.push(c);
+        } else {
+            flush(&mut cur, &mut out);
+            out.push(c);
+        }
+    }
+    flush(&mut cur, &mut out);
+    out
+}
+
+fn alpha_rename(d: &FnDirective, func: &ImplItemFn, log: &mut Vec<String>) -> Option<FnDirective> {
+    use syn::visit::Visit;
+    let mut b = BindingNames(Vec::new());
+    b.visit_impl_item_fn(func);
+    let key = format!("{} :: {} :: {}", d.file, d.selector, d.name);
+    LOCALS_NOW.lock().unwrap().push((key.clone(), b.0.clone()));
+    let base = LOCALS_BASE.get()?.get(&key)?;
+    if base.len() != b.0.len() || *base == b.0 {
+        return None;
+    }
+    let mut map: HashMap<String, String> = HashMap::new();
+    for (o, n) in base.iter().zip(b.0.iter()) {
+        if o != n {
+            if let Some(prev) = map.get(o) {
+                if prev != n {
+                    return None; // one old name would need two new spellings
+                }
+            }
+            map.insert(o.clone(), n.clone());
+        }
+    }
+    // a name that is unchanged at one binding site but renamed at another: not a plain renaming
+    for (o, n) in base.iter().zip(b.0.iter()) {
+        if o == n && map.contains_key(o) {
+            return None;
+        }
+    }
+    // capture check: a new spelling must not already occur in the contract text of this function
+    let mut text: Vec<&String> = d.clauses.iter().collect();
+    for v in d.loops.values() {
+        text.extend(v.iter());
+    }
+    for h in &d.hints {
+        text.extend(h.lines.iter());
+    }
+    let used: HashSet<String> = text.iter().flat_map(|l| ident_tokens(l.split("//").next().unwrap_or(""))).collect();
+    if map.values().any(|n| used.contains(n)) {
+        return None;
+    }
+    let ghost: Vec<(String, String)> = map.iter().map(|(o, n)| (format!("__p_{o}"), format!("__p_{n}"))).collect();
+    for (o, n) in ghost {
+        map.insert(o, n);
+    }
+    let ren = |l: &String| -> String {
+        // keep the label comment as it is
+        match l.find("// [") {
+            Some(p) => format!("{}{}", rename_idents(&l[..p], &map), &l[p..]),
+            None => rename_idents(l, &map),
+        }
+    };
+    let mut nd = d.clone();
+    nd.clauses = d.clauses.iter().map(ren).collect();
+    nd.loops = d.loops.iter().map(|(k, v)| (*k, v.iter().map(ren).collect())).collect();
+    nd.loop_iters = d.loop_iters.iter().map(|(k, v)| (*k, rename_idents(v, &map))).collect();
+    for h in nd.hints.iter_mut() {
+        h.needle = rename_idents(&h.needle, &map);
+        h.lines = h.lines.iter().map(ren).collect();
+    }
+    nd.mutparams = d.mutparams.iter().map(|x| rename_idents(x, &map)).collect();
+    nd.guards = d.guards.iter().map(|x| rename_idents(x, &map)).collect();
+    nd.retain_captures = d.retain_captures.iter().map(|(a, t)| (rename_idents(a, &map), t.clone())).collect();
+    nd.retain_clauses = d.retain_clauses.iter().map(ren).collect();
+    let mut pairs: Vec<String> = map.iter().filter(|(o, _)| !o.starts_with("__p_")).map(|(o, n)| format!("{o}->{n}")).collect();
+    pairs.sort();
+    log.push(format!("R32 contract text alpha-renamed to follow renamed bindings: {}", pairs.join(" ")));
+    Some(nd)
+}
+
 fn type_last_ident(t: &Type) -> String {
     match t {
         Type::Path(p) => p.path.segments.last().map(|s| s.ident.to_string()).unwrap_or_default(),
@@ -203,7 +356,7 @@ fn impl_matches(im: &ItemImpl, sel: &str) -> bool {
 // template processing
 // ------------------------------------------------------------------------------------------
 
-#[derive(Default)]
+#[derive(Default, Clone)]
 struct FnDirective {
     file: String,
     selector: String,
@@ -229,6 +382,7 @@ struct FnDirective {
     nodecreases: bool,
 }
 
+#[derive(Clone)]
 struct Hint {
     arm: bool,
     after: bool,
@@ -300,6 +454,15 @@ fn main() {
     let template = std::fs::read_to_string(&args[1]).unwrap_or_else(|_| die("template missing"));
     let repo = args[2].clone();
     let verif_root = args.get(5).cloned().unwrap_or_else(|| "/verif".to_string());
+    let locals_path = args[1].strip_suffix(".vc.rs").map(|p| format!("{p}.locals.json"));
+    let record_locals = std::env::var("VX_RECORD_LOCALS").is_ok();
+    if let (Some(lp), false) = (&locals_path, record_locals) {
+        if let Ok(txt) = std::fs::read_to_string(lp) {
+            if let Ok(m) = serde_json::from_str::<HashMap<String, Vec<String>>>(&txt) {
+                let _ = LOCALS_BASE.set(m);
+            }
+        }
+    }
     let mut files: HashMap<String, SrcFile> = HashMap::new();
     let mut out = Out { lines: vec![], canary_lines: vec![] };
     let mut maps: Vec<(String, String)> = Vec::new();
@@ -793,6 +956,10 @@ fn main() {
         "fns": report_fns, "items": report_items, "rewrites": rewrite_counts, "includes": includes,
     });
     std::fs::write(&args[4], serde_json::to_string_pretty(&rep).unwrap()).unwrap();
+    if let (Some(lp), true) = (&locals_path, record_locals) {
+        let m: BTreeMap<String, Vec<String>> = LOCALS_NOW.lock().unwrap().iter().cloned().collect();
+        std::fs::write(lp, serde_json::to_string_pretty(&m).unwrap()).unwrap();
+    }
 }
 
 /// const-evaluate simple integer initialisers (literals, + - * / << , other consts of the file, size_of of primitives)
@@ -904,7 +1071,11 @@ fn emit_fn(
     let lines = span_lines(&func);
     let orig = src_text(f, lines);
 
+    let mut r32_log: Vec<String> = Vec::new();
+    let renamed = alpha_rename(d, &func, &mut r32_log);
+    let d: &FnDirective = renamed.as_ref().unwrap_or(d);
     let mut rw = Rw::new(maps, method_maps);
+    rw.log.extend(r32_log);
     rw.noop_methods = noop.clone();
     rw.guards = d.guards.iter().cloned().collect();
     rw.try_expand = method_maps.iter().any(|(k, _)| k == "flag:tryexpand");
@@ -1318,6 +1489,7 @@ fn emit_fn(
     }
     // hints
     let mut skipped_hints: Vec<String> = Vec::new();
+    let mut fuzzy_hints: Vec<String> = Vec::new();
     for (hidx, h) in d.hints.iter().enumerate() {
         // all matching sites (or only the nth when `#n` is given); hints are proof help, so a hint whose anchor does not
         // occur is skipped (recorded), never a reason to stop
@@ -1344,6 +1516,31 @@ fn emit_fn(
         }
         if h.nth > 0 {
             sites = sites.into_iter().skip(h.nth - 1).take(1).collect();
+        }
+        // (only for pure proof steps: a hint that updates ghost state is instrumentation whose meaning depends on sitting at
+        // exactly the event it records, so it is never placed by similarity)
+        let instruments = h.lines.iter().any(|l| {
+            let mut t = l.split("//").next().unwrap_or("").to_string();
+            for op in ["==>", "<==", "=~=", "==", "<=", ">=", "!=", "=>"] {
+                t = t.replace(op, " ");
+            }
+            t.contains('=')
+        });
+        if sites.is_empty() && h.nth <= 1 && !h.needle.starts_with('=') && !instruments {
+            // the anchor text does not occur verbatim (renamed local, reformatted statement): take the one line that carries
+            // at least 3/4 of the needle's tokens in order, if it is clearly the best candidate
+            let nt = anchor_tokens(&h.needle);
+            let mut scored: Vec<(f64, usize)> = body
+                .iter()
+                .enumerate()
+                .filter(|(_, l)| !l.contains("/*vxhint*/") && !l.contains("/*vxslot*/") && !l.contains("/*vxguard*/"))
+                .map(|(k, l)| (anchor_similarity(&nt, &anchor_tokens(l)), k))
+                .collect();
+            scored.sort_by(|a, b| b.0.partial_cmp(&a.0).unwrap());
+            if nt.len() >= 4 && !scored.is_empty() && scored[0].0 >= 0.75 && (scored.len() == 1 || scored[0].0 - scored[1].0 >= 0.1) {
+                sites.push(scored[0].1);
+                fuzzy_hints.push(format!("\"{}\" ~ {}", h.needle, body[scored[0].1].trim()));
+            }
         }
         if sites.is_empty() {
             skipped_hints.push(format!("{} \"{}\"", if h.arm { "arm" } else if h.after { "after" } else { "before" }, h.needle));
@@ -1581,7 +1778,7 @@ fn emit_fn(
         "file": d.file, "selector": d.selector, "name": d.name, "emitted_name": name.to_string(),
         "src_lines": [lines.0, lines.1], "src_text": orig,
         "gen_lines": [s, e], "body_start": bs, "canary_lines": [cs, ce],
-        "props": d.props, "skipped_hints": skipped_hints, "skipped_loop_clauses": skipped_loops, "rewrites": rw.log, "loops": nloops, "trusted": d.trusted, "nocanary": d.nocanary,
+        "props": d.props, "skipped_hints": skipped_hints, "fuzzy_hints": fuzzy_hints, "skipped_loop_clauses": skipped_loops, "rewrites": rw.log, "loops": nloops, "trusted": d.trusted, "nocanary": d.nocanary,
     }));
 }
 
